@@ -27,9 +27,11 @@ import (
 )
 
 type c15QueryCase struct {
-	Domain string `json:"domain"` // base domain, dotted
-	Len    int    `json:"len"`    // packet length
-	Seed   uint64 `json:"seed"`   // packet = c15h.Expand(seed, len)
+	Domain string `json:"domain"`               // base domain, dotted
+	Len    int    `json:"len"`                  // packet length
+	Seed   uint64 `json:"seed"`                 // packet = c15h.Expand(seed, len)
+	QCase  int    `json:"qname_case,omitempty"` // case rewriting of the name on its way to the decoders (c15h.CaseKinds)
+	QSeed  uint64 `json:"qname_case_seed,omitempty"`
 }
 
 // c15Capture is a net.Conn that records each Write as one datagram.
@@ -153,6 +155,51 @@ func c15QueryCheck(t vh.Fataler, rec *vh.Rec, c c15QueryCase) {
 		fail(key, "the labels in front of the domain decode to err=%v, %s", derr, c15h.FirstDiff(orig, got))
 		return
 	}
+	// DNS names are case-insensitive and resolvers rewrite their case in transit: the packet must be
+	// recoverable from every case spelling of the name (reference unpacking), and the requester must
+	// accept the answer to its query whatever the spelling of the names in the response is
+	if c.QCase < 0 || c.QCase >= len(c15h.CaseKinds) {
+		t.Fatalf("harness problem: bad qname_case %d", c.QCase)
+	}
+	kind := c15h.CaseKinds[c.QCase]
+	classes = append(classes, "qcase:"+kind)
+	re := make(dns.Name, len(msg.Question[0].Name))
+	for i, l := range msg.Question[0].Name {
+		re[i] = append([]byte{}, l...)
+	}
+	c15h.Recase(re, len(domain), c.QCase, c.QSeed)
+	if pre, ok2 := re.TrimSuffix(domain); !ok2 {
+		fail("query:domain-case-sensitive", "Name.TrimSuffix does not recognise the base domain in the spelling %s (%s)", re, kind)
+		return
+	} else if got2, derr2 := c15B32.DecodeString(strings.ToUpper(string(bytes.Join(pre, nil)))); derr2 != nil || !bytes.Equal(got2, orig) {
+		fail("query:payload-altered", "the %s spelling of the name decodes to err=%v, %s", kind, derr2, c15h.FirstDiff(orig, got2))
+		return
+	}
+	body := c15h.Expand(c.Seed^0x5a5a, 1+c.Len%300)
+	respMsg := &dns.Message{ID: msg.ID, Flags: 0x8400, Question: []dns.Question{{Name: re, Type: dns.RRTypeTXT, Class: dns.ClassIN}},
+		Answer: []dns.RR{{Name: re, Type: dns.RRTypeTXT, Class: dns.ClassIN, TTL: 60, Data: dns.EncodeRDataTXT(body)}}}
+	var back []byte
+	var stage string
+	if pan, what := c15h.Catch(func() {
+		w, werr := respMsg.WireFormat()
+		if werr != nil {
+			stage = "response WireFormat: " + werr.Error()
+			return
+		}
+		parsed, perr := dns.MessageFromWireFormat(w)
+		if perr != nil {
+			stage = "response parse: " + perr.Error()
+			return
+		}
+		back = dnsResponsePayload(&parsed, domain)
+	}); pan {
+		fail("response:decode-panic", "the response path panicked: %s", what)
+		return
+	}
+	if stage != "" || !bytes.Equal(back, body) || back == nil {
+		fail("response:domain-case-sensitive", "dnsResponsePayload does not extract the %d-byte TXT payload of the answer to this query when the names in the response are spelled %s (%s): %s got %d bytes", len(body), re, kind, stage, len(back))
+		return
+	}
 	classes = append(classes, "ok")
 	if c.Len == capN {
 		classes = append(classes, "ok@capacity")
@@ -189,7 +236,7 @@ func c15LongDomain(octets int) string {
 
 var c15QueryDomains = []string{"a", "t.example.com", "T.Example.COM.", "x1.registrar.refraction.network", c15LongDomain(100), c15LongDomain(160), c15LongDomain(190), c15LongDomain(250), c15LongDomain(254), c15LongDomain(255)}
 
-var c15QueryRequired = []string{"ok@0", "ok@capacity", "rejected@capacity+1", "label63"}
+var c15QueryRequired = []string{"ok@0", "ok@capacity", "rejected@capacity+1", "label63", "qcase:upper", "qcase:0x20", "qcase:domain-only", "qcase:data-only"}
 
 func TestVerif_C15_query_enum(t *testing.T) {
 	rec := vh.NewRec("C15", "query_enum", "every packet length 0-260 x 10 base domains (1 to 255 octets on the wire: a, t.example.com, a mixed-case spelling with trailing dot, a 4-label domain, and synthetic domains of 100/160/190/250/254/255 octets) x two fills through DNSPacketConn.send into a capturing conn. Oracle: send errs, or its single query parses, ends in the base domain and its labels base32-decode (reference) to the packet. Non-trivial = length >= 1 within 10 of the reference capacity; distinct by (domain, len, fill)")
@@ -212,8 +259,8 @@ func TestVerif_C15_query_enum(t *testing.T) {
 			if !vh.Mine(i) {
 				continue
 			}
-			c15QueryCheck(soft, rec, c15QueryCase{Domain: d, Len: l, Seed: uint64(l) + 2})
-			c15QueryCheck(soft, rec, c15QueryCase{Domain: d, Len: l, Seed: 1})
+			c15QueryCheck(soft, rec, c15QueryCase{Domain: d, Len: l, Seed: uint64(l) + 2, QCase: l % len(c15h.CaseKinds), QSeed: uint64(l)*7 + 3})
+			c15QueryCheck(soft, rec, c15QueryCase{Domain: d, Len: l, Seed: 1, QCase: (l + 3) % len(c15h.CaseKinds), QSeed: uint64(l)*7 + 4})
 			if soft.Failed {
 				t.Fail()
 				return
@@ -243,7 +290,7 @@ func c15DomainGen(rt *rapid.T) string {
 func TestVerif_C15_query(t *testing.T) {
 	rec := vh.NewRec("C15", "query", "rapid: base domain of 1-6 labels (label lengths from 1,2,3,7,12,30,62,63; letters of both cases, digits, hyphen) x packet length (half of the draws within 3 of the reference capacity of that domain, otherwise 0-260) x fill; same oracle as query_enum; distinct by case")
 	defer rec.Flush()
-	rec.Require("ok", "ok@capacity", "rejected@capacity+1")
+	rec.Require("ok", "ok@capacity", "rejected@capacity+1", "qcase:upper", "qcase:0x20", "qcase:domain-only", "qcase:data-only")
 	if p := vh.ReplayFile(); p != "" {
 		var c c15QueryCase
 		if _, _, err := vh.LoadReplay(p, &c); err != nil {
@@ -254,6 +301,8 @@ func TestVerif_C15_query(t *testing.T) {
 	}
 	rapid.Check(t, func(rt *rapid.T) {
 		c := c15QueryCase{Domain: c15DomainGen(rt), Seed: c15h.Seeds().Draw(rt, "seed")}
+		c.QCase = rapid.IntRange(0, len(c15h.CaseKinds)-1).Draw(rt, "qcase")
+		c.QSeed = rapid.Uint64Range(2, 1<<40).Draw(rt, "qseed")
 		capN := c15Capacity(c.Domain)
 		if rapid.Bool().Draw(rt, "near") {
 			c.Len = capN + rapid.IntRange(-3, 3).Draw(rt, "delta")
